@@ -1213,19 +1213,19 @@ func TestProp(t *testing.T) {
 	run.Enum("contexts", "every context template x syntax x variant x value x hook set; per case three runs: the operands written as literals (values), as calls of a native function (which operand is evaluated when), and in the custom syntax; oracle: same error-ness/rest/value/variables/generator state as the literals, handler log = reference call log with exactly the matched text, groups and payload, handler's reused value object untouched, \"\" as process text = the matched text; non-trivial = at least one handler call; distinct by source, syntax, variant",
 		func(s *rt.Section) { enumContexts(s, run) })
 
-	run.Check("transparent", 8000, 64000,
+	run.Check("transparent", 7000, 64000,
 		"generated program (all constructs, seeded dice of the enabled families; 1/3 with a broken-off tail, 1/4 after a set-up program) on a plain VM and on a VM with: a logging stream parser, 1-4 of {regex over a foreign alphabet, regex that can only match in the middle of an operand, regex that matches some operands, a named syntax, a stream parser reading ahead by Read/Peek/Unread/ReadDigits/ReadExpr and declining by nil / Matched=false / Matched with nothing consumed, with or without ResetAttempt}, and a drawn subset of pass-through HookValueLoadPre/LoadPost/Store and identity detail rewriters. When no syntax matched at a consulted position (decided from the logged consultations): equal error-ness, Ret, Matched, RestInput, process text, variables, generator state, and no handler call. Non-trivial = nothing matched and the custom syntaxes were consulted at >= 3 distinct positions; distinct by source, seed, extension set",
 		propTransparent)
 
-	run.Check("acting", 5000, 44000,
+	run.Check("acting", 4500, 44000,
 		"program = generated program whose integer literals (not dict keys, not slice bounds) are eligible, or (1/3 of the cases; always while an open finding asks to keep custom operands out of look-ahead guarded positions) a program of unguarded shapes; a drawn subset of the literals is written in 1-3 of 8 matching syntaxes (regex E<k>, <k>!, 骰<k>点, Q<k>[_<j>]; stream C<k>T<j>, @<k>, 掷<k>, Z<k> with read-ahead) registered in drawn order among passive extensions, handlers that reuse one value object / scribble over their groups / fail at the n-th call. Oracle as in contexts. Non-trivial = at least one handler call; distinct by source, seed, extension set",
 		propActing)
 
-	run.Check("restored", 2500, 16000,
+	run.Check("restored", 2000, 16000,
 		"definitions (at least one function and one computed value of unguarded shapes, custom operands inside their bodies) run on a VM with the syntaxes registered; its variables go through Attrs.ToJSON / UnmarshalJSON into a fresh VM with the same syntaxes registered; a use program (sums, products, comparisons of those functions, computed values and further custom operands) is then evaluated by both. Oracle: same error-ness, Ret, rest, process text, variables and handler log. Non-trivial = at least one handler call in the defining VM; distinct by definitions, use program, extension set",
 		propRestored)
 
-	run.Check("analog", 5000, 32000,
+	run.Check("analog", 4500, 32000,
 		"as acting, but the operands are <n>X<m> (regex or stream parser) whose handler returns exactly what the built-in <n>d<m> yields under the configured min/max mode (value and text); the run is compared with the same source written with d on a plain VM: error-ness, Ret, Matched, RestInput, process text, variables (after renaming X to d), generator state. Non-trivial = at least one handler call; distinct by source, mode, extension set",
 		propAnalog)
 }
